@@ -44,7 +44,7 @@ def rd(path):
 # --------------------------------------------------------------------------
 VARIANTS = {
     "plain": ["-O1", "-g0"],
-    "asan": ["-O1", "-g", "-fsanitize=address,undefined", "-fno-sanitize=shift",
+    "asan": ["-O1", "-g", "-fsanitize=address,undefined", "-fno-sanitize=shift", "-fno-sanitize=enum",
              "-fno-sanitize-recover=undefined", "-fno-omit-frame-pointer"],
     # assert() active is the default in both (no -DNDEBUG), like the library build
 }
